@@ -199,7 +199,7 @@ class ShardResult:
         self.evaluations = 0
         self.nontrivial = 0
         self.counters: dict[str, int] = {}
-        self.fail_keys: list[tuple[str, str]] = []   # (key, clause)
+        self.fail_keys: list[tuple[str, str, str]] = []   # (key, clause, family)
         self.fail_details: list[dict] = []           # details for failures not listed as known
         self.samples: list = []
         self.error: str | None = None
@@ -211,7 +211,7 @@ class ShardResult:
         """case must contain 'clause' and everything needed to replay."""
         key = case_key({k: v for k, v in case.items() if k not in ("observed", "expected", "note")})
         case["key"] = key
-        self.fail_keys.append((key, case["clause"]))
+        self.fail_keys.append((key, case["clause"], case.get("family", "")))
         if key not in known_keys and len(self.fail_details) < 40:
             self.fail_details.append(case)
         return key
